@@ -30,7 +30,8 @@ Definition do_uop (v : variant) (now : Z) (o : uop) (w : net) : net * list kc :=
   | UUdpOpen s v4 => udp_open cx s v4 w
   | UUdpBind s e => let (err, w) := udp_bind_user v s e w in (w, [ret_line 1 s [err]])
   | UUdpClose s => udp_close cx s w
-  | UUdpCancel s => udp_abort_recv s w
+  | UUdpCancel s => let (w, c0) := udp_abort_recv s w in let (w, c1) := udp_abort_send v s w in (w, c0 ++ c1)
+  | UUdpWaitWrite s h => udp_wait_write cx s h w
   | UUdpDestroy s => let (w, c) := udp_close cx s w in (set_udp w s (udp_fresh (u_node (get_udp w s)) now), c)
   | UUdpSendTo s bufs dst =>
       let '(err, n, w, c) := udp_send_to cx s bufs dst w in (w, c ++ [ret_line 2 s [err; n]])
@@ -247,6 +248,16 @@ Definition sim_exec (v : variant) (t : task) (now : Z) (w : net) : net * list kc
       | None => (w, [])
       end
   | TAcceptAbort2 h => run_user v now h [EC_ABORTED; -1] w
+  | TUdpWritable s e =>
+      match e with
+      | Aborted => (w, [])
+      | Success =>
+          let u := get_udp w s in
+          match u_wait_send_h u with
+          | Some h => run_user v now h [EC_OK] (set_udp w s (u <| u_wait_send_h := None |>))
+          | None => (w, [])
+          end
+      end
   end.
 
 (* scripts *)
